@@ -1,9 +1,9 @@
 /* Token table of the token-level driver and the token-oracle cut of MessageBase::extract_element.
    A message is a sequence of tokens  tag(1..5 digits) '=' value(<= 7 bytes) SOH  whose positions are known when the
    harness is compiled; tag digits and value bytes may be symbolic.  TK_render() writes the bytes into W_buf.
-   Cut point (unless NO_TOKCUT): MessageBase::extract_element(from, sz, tag, val) := the token that starts at `from`:
+   Cut point (unless NO_TOKCUT): MessageBase::extract_element(from, sz, tag, val, tag_sz, val_sz) := the token that starts at `from`:
    copies its tag text and value text NUL-terminated and returns its width, or 0 when the token does not end inside
-   sz bytes.  This is the functional contract of the real tokenizer on well-formed tokens, established for every byte
+   sz bytes or its tag / value text does not fit tag_sz / val_sz bytes with the terminator.  This is the functional contract of the real tokenizer on well-formed tokens, established for every byte
    string by the C03_ext_* kernel harnesses ("a token is recognised iff digits '=' bytes SOH", "the token ends at the
    first SOH after '='", "tag and value are the NUL-terminated text of the token"); token values here contain no SOH.
    The cut also checks that W_buf really holds the token it reports. */
@@ -12,7 +12,8 @@
 #endif
 #define TKMAX NTOK
 static uint8_t TK_on[TKMAX], TK_tlen[TKMAX], TK_vlen[TKMAX], TK_tag[TKMAX][5], TK_val[TKMAX][7]; static uint32_t TK_num[TKMAX], TK_off[TKMAX], TK_w[TKMAX];
-static int TK_n, TK_bad; static uint32_t TK_len; static uint8_t TK_isdata[TKMAX];   /* data tokens: value is raw bytes (may hold SOH): only the fixed-width extractor may read them */
+static int TK_n, TK_bad; static uint32_t TK_len; static uint8_t TK_garb[TKMAX];   /* garbage "tokens": raw bytes that are not a token (the harness writes them and states their class): the tokenizer returns 0 there */
+static uint8_t TK_isdata[TKMAX];   /* data tokens: value is raw bytes (may hold SOH): only the fixed-width extractor may read them */
 /* tlen/vlen may be symbolic only if tlen + vlen is the same for every choice (fixed token width) */
 static void TK_add(int on, uint32_t num, const uint8_t *tag, uint8_t tlen, const uint8_t *val, uint8_t vlen, uint32_t width)
 {
@@ -43,14 +44,22 @@ static void TK_render(void)
   TK_len = o;
 }
 #ifndef NO_TOKCUT
+#ifdef EXT_NOCAP
 uint32_t st_extract_element(void *fromv, uint32_t sz, void *tagv, void *valv)
 {
+  const uint32_t tag_sz = 0xffffffffu, val_sz = 0xffffffffu;     /* tree without capacity parameters: the harness tokens are shorter than every buffer */
+#else
+uint32_t st_extract_element(void *fromv, uint32_t sz, void *tagv, void *valv, uint32_t tag_sz, uint32_t val_sz)
+{
+#endif
   uint8_t *from = fromv, *tag = tagv, *val = valv;
   uint32_t off = (uint32_t)(from - W_buf);
   if (sz == 0) { *tag = 0; *val = 0; return 0; }
   for (int k = 0; k < TKMAX; k++) if (k < TK_n && TK_on[k] && TK_off[k] == off) {
+    if (TK_garb[k]) { *tag = 0; *val = 0; return 0; }          /* not a token (C03_ext_*: recognised iff digits '=' bytes SOH inside sz) */
     if (TK_isdata[k]) { TK_bad = 1; __CPROVER_assert(0, "the byte tokenizer is never applied to a length-prefixed value"); __CPROVER_assume(0); }      /* the byte tokenizer applied to a length-prefixed value: outside the cut's contract, reported by the harness */
     if (TK_w[k] > sz) { TK_bad = 1; return 0; }                 /* never the case: every token ends inside the region it is read from */
+    if (TK_tlen[k] >= tag_sz || TK_vlen[k] >= val_sz) { *tag = 0; *val = 0; return 0; }   /* capacity contract (repo 4884c13): an element that does not fit the caller's buffers is not extracted */
     for (int j = 0; j < 6; j++) tag[j] = (j < 5 && j < TK_tlen[k]) ? TK_tag[k][j] : 0;     /* text + terminator (bytes after the terminator are never read) */
     for (int j = 0; j < 8; j++) val[j] = (j < 7 && j < TK_vlen[k]) ? TK_val[k][j] : 0;
     return TK_w[k];
